@@ -1,6 +1,6 @@
 """Shared end-to-end check for the resolver properties C01, C02, C12."""
 import json, os
-from .. import core, e2e, genproj, proj
+from .. import core, e2e, genproj, proj, directed
 
 PROJ = {   # which disagreement tags belong to which property's projection
     "C01": {"crash", "rc", "configured", "modules", "nobuilds", "predicted-panic"},
@@ -32,7 +32,7 @@ def run(rep, pid, tier, seed, rng):
     laze = core.build_impl()
     driver = core.build_model()
     corpus = json.load(open(os.path.join(core.VERIF, "corpus", "upstream.json")))
-    cases = [(f, {}) for f in corpus.values()]
+    cases = [(f, {}) for f in corpus.values()] + directed.cases()
     extra = os.path.join(core.VERIF, "corpus", "regressions.json")
     if os.path.exists(extra):
         cases += [(c["files"], c["cli"]) for c in json.load(open(extra))]
